@@ -386,6 +386,11 @@ func cmdCheck(args []string) {
 			}
 			os.Exit(2)
 		}
+		for i, smp := range ev.harnessSamples {
+			if i < 3 {
+				fmt.Printf("NOTE property=%s harness error (run not judged): %s\n", id, smp)
+			}
+		}
 		fmt.Printf("OK property=%s tier=%s runs=%d distinct=%d wall=%.1fs harness_errors=%d\n", id, tier, ev.runs, len(ev.distinct), ev.wall, ev.harnessErrs)
 	}
 	os.Exit(exit)
